@@ -139,7 +139,33 @@ func cmdCheck(args []string) int {
 	os.MkdirAll(smtDir, 0o755)
 	var results []*TargetResult
 	for _, t := range targets {
-		r := runTarget(p, t)
+		r := runTarget(p, t, 0)
+		if t.Spec != nil && r.Err == "" && r.Exec.numReturns > 1 && r.Exec.numReturns <= 16 {
+			// postconditions and frame are checked per return path; everything else on the merged run
+			var keep []*Obligation
+			for _, o := range r.Obls {
+				if o.Class != "Q" && o.Class != "A" {
+					keep = append(keep, o)
+				}
+			}
+			r.Obls = keep
+			results = append(results, r)
+			for k := 1; k <= r.Exec.numReturns; k++ {
+				rk := runTarget(p, t, k)
+				var qs []*Obligation
+				for _, o := range rk.Obls {
+					if o.Class == "Q" || o.Class == "A" {
+						qs = append(qs, o)
+					}
+				}
+				rk.Obls = qs
+				results = append(results, rk)
+			}
+			if *verbose {
+				fmt.Fprintf(os.Stderr, "target %s: %d return paths\n", t.Name, r.Exec.numReturns)
+			}
+			continue
+		}
 		results = append(results, r)
 		if *verbose {
 			fmt.Fprintf(os.Stderr, "target %s: %d obligations (%.2fs) %s\n", t.Name, len(r.Obls), r.Secs, r.Err)
@@ -205,9 +231,10 @@ func contains(xs []string, s string) bool {
 	return false
 }
 
-func runTarget(p *Loaded, t Target) (res *TargetResult) {
+func runTarget(p *Loaded, t Target, selRet int) (res *TargetResult) {
 	t0 := time.Now()
 	x := NewExec(p)
+	x.selectReturn = selRet
 	res = &TargetResult{Target: t.Name, Exec: x}
 	defer func() {
 		res.Secs = time.Since(t0).Seconds()
